@@ -13,5 +13,6 @@ CFG = dict(
     assumptions=["interest/funding settlement may change a perpetual position's custody without closing it; 'altered' means removed, or collateral / principal changed (and size for leveragelp)"],
     explanation="Theorems: a position is changed by third-party attempts only if the guard of an attempted path held; otherwise it is untouched; the as-coded guards imply the property's "
                 "conditions at every positive price; opens are accepted only with health above the safety factor; non-owner close fails; witness of the repaired short/zero-stop-loss defect. "
-                "Every (position, block) case is judged against the decision model and the property's own condition.",
+                "Every (position, block) case is judged against the decision model and the property's own condition."
+                " Re-opens are also judged on the health computed as the force-close path computes it (interest and funding settled first), with an allowance of 1e-4 of the safety factor for the different rounding of the two computations.",
 )
